@@ -113,7 +113,7 @@ pub fn decimal_parts(sp: &str) -> (bool, String, i64) {
 /// the same number in plain positional notation (no exponent), when that stays below ~400 characters
 pub fn plain(sp: &str) -> String {
 	let (neg, digits, exp) = decimal_parts(sp);
-	if digits.is_empty() || exp > 40 || exp < -380 {
+	if digits.is_empty() || exp > 40 || exp < -1200 {
 		return sp.to_string();
 	}
 	let body = if exp >= 0 {
